@@ -20,7 +20,7 @@ func init() { register(c04{}) }
 
 func (c04) ID() string { return "C04" }
 func (c04) Cases(t fw.Tier) int {
-	return tierN(t, 6000, 250000)
+	return tierN(t, 50000, 1500000)
 }
 func (c04) Rule() string {
 	return "each case takes a Go type T of the plain-data domain - the committed corpus (named structs, embedded structs by value / non-nil pointer, unexported embedded types, same-name shadowing, named slices/maps/pointers, repeated types, standard-library marshalers, " +
